@@ -11,11 +11,12 @@ Definition result_validate (n : nat) (cls : list Ann.pclass) (enums : list (stri
                            (name : string) (d : json) : option json :=
   if Pydantic.accepts n cls enums (Ann.AClass name) d then Some d else None.
 
-Lemma method_returns_conformant C S frs fuel kind name sels root own pub' cls g cov fc d n st kv :
+Lemma method_returns_conformant C S frs fuel kind name mixins sels root own pub' cls g cov mx fc d n st kv :
   Results.root_type_name S kind = Results.Ok root ->
-  Results.op_parse fuel C S frs kind name [] sels = Results.Ok (own, pub', false) ->
-  Results.all_classes fuel C S frs (Results.DOp kind name [] sels) = Results.Ok cls ->
-  ResultsObjP.op_ok g cov C S frs root sels = true -> ResultsRunP.no_basemodel own = true ->
+  Results.op_parse fuel C S frs kind name mixins sels = Results.Ok (own, pub', false) ->
+  Results.all_classes fuel C S frs (Results.DOp kind name mixins sels) = Results.Ok cls ->
+  ResultsObjP.op_ok g cov C S frs mx mixins root sels = true -> ResultsRunP.mx_ok cls mx = true ->
+  ResultsRunP.no_basemodel own = true ->
   n >= fuel + 2 ->
   (200 <= st <= 299)%Z -> jlookup "data" kv = Some d ->
   (jlookup "errors" kv = None \/ jlookup "errors" kv = Some (JArr [])) ->
@@ -23,12 +24,12 @@ Lemma method_returns_conformant C S frs fuel kind name sels root own pub' cls g 
   client_method (result_validate n cls (Results.schema_enums S) (Results.pascal_s name)) st (Some (JObj kv))
   = MReturn d.
 Proof.
-  intros Hr Hop Hall Hok Hnb Hn Hst Hd He Hconf.
+  intros Hr Hop Hall Hok Hmx Hnb Hn Hst Hd He Hconf.
   apply method_returns_validated. exists d. split.
   - apply data_member_returned; assumption.
   - unfold result_validate.
-    rewrite (ResultsObjP.op_accepts C S frs fuel kind name sels root own pub' cls g cov fc d n
-               Hr Hop Hall Hok Hnb Hconf Hn). reflexivity.
+    rewrite (ResultsObjP.op_accepts C S frs fuel kind name mixins sels root own pub' cls g cov mx fc d n
+               Hr Hop Hall Hok Hmx Hnb Hconf Hn). reflexivity.
 Qed.
 
 (* whatever the validation function: nothing is returned when the server reported errors, whatever the
